@@ -3,7 +3,7 @@ From Coq Require Import List ZArith Reals Lra Lia.
 From Coquelicot Require Import Coquelicot.
 From RV Require Import Common.Num Common.RealNum C02.Model C02.Spec C03.Model C16.Dual C16.GravityVar C16.GravityVarProofs
   C16.GravityVar2Proofs Gen.Derivs C16.DerivProofs C16.Deriv2Common C16.Deriv2All C16.KeplerVar C16.Link
-  C16.Rescale C16.RescaleProofs.
+  C16.Rescale C16.RescaleProofs C16.WhInteraction.
 Import ListNotations.
 Open Scope R_scope.
 
@@ -196,6 +196,28 @@ Theorem C16_acc_on_is_c02_spec : forall (G : R) (ign : nat) (tp : bool) (ps : li
 Proof. exact acc_on_is_spec. Qed.
 Print Assumptions C16_acc_on_is_c02_spec.
 
+(* ---- the program differentiated by C16_var2_is_mixed_dual_part is the specified force / C02's model of
+   reb_calculate_acceleration (zero softening, open boundary, all particles active, gravity_ignore_terms = 0) *)
+Theorem C16_grav_allpairs_is_c02_grav_basic : forall (G : R) (tp : bool) (ps : list (Part R)) (k : nat),
+  (k < length ps)%nat ->
+  nth_d C02.Sums.vzero (grav_allpairs RNum G ps) k = acc_spec G 0 0 0 0 0%nat 0%nat 0%nat 0%nat (length ps) tp ps k /\
+  nth_d C02.Sums.vzero (grav_allpairs RNum G ps) k =
+  nth_d C02.Sums.vzero (grav_basic RNum G 0 0 0 0 0 0 0 0 (length ps) tp ps) k.
+Proof. intros. split; [apply grav_allpairs_is_spec | apply grav_allpairs_is_grav_basic]; assumption. Qed.
+Print Assumptions C16_grav_allpairs_is_c02_grav_basic.
+
+(* ---- WHFast interaction step (Jacobi coordinates), loop after the acceleration transforms: the update of every
+   variational Jacobi particle of the k-th set is the dual part of the update of the real Jacobi particles, all N.
+   (The transforms themselves are C12's linear maps applied to the variational particles with the real masses.) *)
+Theorem C16_wh_interaction_var_is_dual_part : forall (G dt soft : R) (na k : nat)
+  (l : list (R * @JP R * list (@JP R))) (i : nat) (eta : R),
+  (forall m p dps, In (m, p, dps) l -> 0 < r2soft soft p /\ (k < length dps)%nat) ->
+  map (fun o => nth k (snd o) (0, 0, 0)) (wh_loop RNum G dt soft na i eta l) =
+  map (fun o => dp3w (fst o))
+      (wh_loop DR (dconst RNum G) (dconst RNum dt) (dconst RNum soft) na i (dconst RNum eta) (lift_set k l)).
+Proof. exact wh_loop_var_is_dual_part. Qed.
+Print Assumptions C16_wh_interaction_var_is_dual_part.
+
 (* ---- WHFast: the variational block of the Kepler solver (C03 kepler_variation, bit-exact with C) is the tangent map of
    the f-g step given the solved X.  ASSUMED: the Stiefel chain rule dG_n = G_(n-1) dX + (n G_(n+2) - X G_(n+1))/2 dbeta;
    dX is forced by the linearised Kepler equation (C16_kepler_dX_unique). *)
@@ -221,11 +243,16 @@ Theorem C16_kepler_dX_unique : forall (p1 dp : @S6 R) (M dt X G1 G2 G3 G4 G5 : R
 Proof. intros. apply (kepler_dX_unique p1 dp M dt X G1 G2 G3 G4 G5); assumption. Qed.
 Print Assumptions C16_kepler_dX_unique.
 
-(* ---- rescaling changes only the recorded magnitude (reb_simulation_rescale_var, branch for branch) *)
+(* ---- rescaling changes only the recorded magnitude (reb_simulation_rescale_var, branch for branch, incl. the IAS15
+   branch of /repo 8a5d079): every set is untouched or all its coordinates are divided by ONE factor s > big whose ln is
+   added to lrescale; exp(lrescale) * particles is unchanged, and when IAS15 holds state for the set
+   (integrator = IAS15, arrays allocated) so is exp(lrescale) * (csx, csv, b, csb, e, br, er of that set) *)
 Theorem C16_rescale_only_magnitude : forall big : R, 0 < big -> forall (cs : list VCfg) (fl : Flags),
   let '(fl', cs') := rescale_all RNum ln big fl cs in
   Forall2 (fun c c' =>
-     represented c' = represented c /\ vc_order c' = vc_order c /\
+     represented c' = represented c /\
+     (integ fl = 3%nat /\ vc_alloc c = true -> represented_ias c' = represented_ias c) /\
+     vc_alloc c' = vc_alloc c /\ vc_order c' = vc_order c /\
      (c' = c \/ (vc_order c = 1%nat /\ exists s, big < s /\ vc_lres c' = vc_lres c + ln s /\ vc_ps c' = map (div6 RNum s) (vc_ps c)))) cs cs'
   /\ (integ fl = 1%nat -> safe_mode fl = false -> cs' <> cs -> recalc fl' = true)
   /\ integ fl' = integ fl /\ safe_mode fl' = safe_mode fl /\ (recalc fl = true -> recalc fl' = true).
